@@ -754,14 +754,19 @@ template<typename T, typename C, typename A>
 req_sketch<T, C, A>::const_iterator::const_iterator(LevelsIterator begin, LevelsIterator end):
     levels_it_(begin),
     levels_end_(end),
-    compactor_it_(begin == end ? nullptr : (*levels_it_).begin())
-{}
+    compactor_it_(nullptr)
+{
+  // skip empty compactors so that begin() == end() for an empty sketch
+  while (levels_it_ != levels_end_ && (*levels_it_).begin() == (*levels_it_).end()) ++levels_it_;
+  if (levels_it_ != levels_end_) compactor_it_ = (*levels_it_).begin();
+}
 
 template<typename T, typename C, typename A>
 auto req_sketch<T, C, A>::const_iterator::operator++() -> const_iterator& {
   ++compactor_it_;
   if (compactor_it_ == (*levels_it_).end()) {
     ++levels_it_;
+    while (levels_it_ != levels_end_ && (*levels_it_).begin() == (*levels_it_).end()) ++levels_it_;
     if (levels_it_ != levels_end_) compactor_it_ = (*levels_it_).begin();
   }
   return *this;
